@@ -58,13 +58,14 @@ def sh(cmd, timeout=1200, cwd=None, env=None, input=None):
 class Lock:
     """flock-based lock serialising shared builds (coq make, cargo, ocaml)."""
 
-    def __init__(self, name):
+    def __init__(self, name, shared=False):
         os.makedirs(CACHE, exist_ok=True)
         self.path = os.path.join(CACHE, name + ".lock")
+        self.shared = shared
 
     def __enter__(self):
-        self.f = open(self.path, "w")
-        fcntl.flock(self.f, fcntl.LOCK_EX)
+        self.f = open(self.path, "a")
+        fcntl.flock(self.f, fcntl.LOCK_SH if self.shared else fcntl.LOCK_EX)
         return self
 
     def __exit__(self, *a):
@@ -405,6 +406,17 @@ class Check:
         bad = audit_sources()
         if bad:
             broken.append("source audit: " + "; ".join(bad[:5]))
+        if self.tier == "thorough" and not broken:
+            # independent re-check of the compiled proofs and everything they depend on, with the axiom list
+            with Lock("coq", shared=True):
+                rc, out = sh("cd %s && timeout 3000 coqchk -silent -o -Q . GS GS.Properties.%s 2>&1 | tail -40" % (COQ, self.prop), timeout=3100)
+            m = re.search(r"\* Axioms:\s*(.*?)(?:\n\s*\*|\Z)", out, re.S)
+            ax = " ".join(m.group(1).split()) if m else None
+            self.coverage["coqchk"] = {"cmd": "coqchk -silent -o -Q . GS GS.Properties.%s" % self.prop, "axioms": ax, "ok": "Modules were successfully checked" in out}
+            if "Modules were successfully checked" not in out or ax != "<none>":
+                broken.append("coqchk: " + (("axioms: " + str(ax)) if "Modules were successfully checked" in out else out[-300:]))
+            else:
+                self.log("coqchk: modules successfully checked, Axioms: <none>")
         self.coq = res
         self.coverage["obligations"] = res["obligations"]
         self.coverage["discharged"] = 0 if broken else res["obligations"]
